@@ -630,12 +630,73 @@ def run_tric(c):
     return ck.result()
 
 
+# ------------------------------------------------------------------------------------------- degenerate quadrics of mixed reducibility
+@st.composite
+def mixred_case(draw, tier="quick"):
+    return {"v": [draw(C.ints(5)) for _ in range(24)], "order": draw(st.sampled_from([[0, 1], [1, 0], [0, 1, 0], [1, 1, 0], [0, 0, 1]])), "r": draw(st.sampled_from([1, 2, 0.5]))}
+
+
+def run_mixred(c):
+    """a QuadricCollection of 3-space whose members are all degenerate but not all reducible (pairs of planes next to cones): components refuses
+    the collection as it refuses the cone alone, and intersect(line) gives at every position what the single member gives"""
+    from geometer import Cone
+    from geometer.exceptions import NotReducible
+
+    v = [float(x) for x in c["v"]]
+    e, f_ = np.array(v[0:4]), np.array(v[4:8])
+    if np.linalg.matrix_rank(np.stack([e, f_])) < 2 or not np.any(e[:3]) or not np.any(f_[:3]):
+        raise Skip("planes not distinct")
+    apex, base = np.array(v[8:11]), np.array(v[11:14])
+    if not np.any(base - apex):
+        raise Skip("degenerate cone")
+    try:
+        pair = Quadric.from_planes(Plane(e), Plane(f_))
+        cone = Cone(Point(*apex), Point(*base), float(c["r"]))
+    except Exception:  # noqa: BLE001
+        raise Skip("construction refused") from None
+    members = [pair if k == 0 else cone for k in c["order"]]
+    coll = QuadricCollection([m.array for m in members])
+    ck = Checker()
+    site = "mixed-reducibility:" + "".join("P" if k == 0 else "C" for k in c["order"])
+    try:
+        comp = coll.components
+        ck.check(False, site + ":components-accepted-although-a-member-is-irreducible", type(comp).__name__)
+    except NotReducible:
+        pass
+    except Exception as ex:  # noqa: BLE001
+        ck.add(exc_fail(ex, site + ":components"))
+    p0, p1 = np.array(v[14:17]), np.array(v[17:20])
+    if not np.any(p1 - p0):
+        raise Skip("degenerate line")
+    line = Line(Point(*p0), Point(*p1))
+    singles = []
+    for m in members:
+        r, f = call(site + ":single", m.intersect, line)
+        if f:
+            raise Skip("single call fails (subject of another property)")
+        singles.append([np.asarray(x.array) for x in r])
+    res, f = call(site + ":intersect", coll.intersect, line)
+    if f:
+        return ck.result() + [f]
+    for i, want in enumerate(singles):
+        try:
+            got = [np.asarray(x.array)[i] for x in res]
+        except Exception as ex:  # noqa: BLE001
+            ck.check(False, site + ":result-shape", repr(ex)[:120])
+            break
+        if not ck.check(C.set_peq(got, want, 1e-6), site + ":position-value", (i, [g.tolist() for g in got], [w.tolist() for w in want])):
+            break
+    return ck.result()
+
+
 LAWS = [
     Law("collection_vs_single", lambda tier: case(tier), run, nontrivial, labels, {"quick": 3500, "thorough": 80000},
         "collection result at every position == single-object result there, with broadcasting", shard=250, mandatory=("one-axis", "several-axes", "one-axis+broadcast")),
     Law("many_elements", lambda tier: big_case(tier), run, lambda c: True, lambda c: [c["op"], "several-axes:>=64" if len(c["shape"]) > 1 else "one-axis:>=64"], {"quick": 480, "thorough": 6000},
         "collections of 64 and more elements, in one and in several axes (8x8, 4x4x4, 2x40, 16x4, 1x64), for the operations that end in the batched numeric kernels (transformations applied / inverted / powers, quadric contains / tangent / dual / components / intersect): every position equals the single call",
         shard=20, mandatory=("several-axes:>=64", "one-axis:>=64")),
+    Law("degenerate_quadrics_of_mixed_reducibility", lambda tier: mixred_case(tier), run_mixred, lambda c: True, lambda c: ["order=" + "".join("P" if k == 0 else "C" for k in c["order"])], {"quick": 400, "thorough": 6000},
+        "QuadricCollection of plane pairs and cones: components raises NotReducible as for the cone alone, intersect(line) equals the single members at every position", shard=100),
     Law("components_mixed_magnitude", lambda tier: mag_case(tier), run_mag, lambda c: len(set(c["exp"])) > 1, lambda c: ["mixed" if len(set(c["exp"])) > 1 else "uniform"],
         {"quick": 500, "thorough": 8000}, "QuadricCollection.components for line pairs whose matrices differ in magnitude by up to 1e4 vs the single-object results", shard=250),
     Law("predicates_extra_arguments", lambda tier: __import__("vp.props.c10", fromlist=["x"]).mixed_case(tier), run_pred_coll, lambda c: len({p["mode"] for p in c["pos"]}) > 1,
